@@ -7,7 +7,7 @@ import session
 import explore
 from props import session_common as sc
 
-COQ_TARGETS = ['props/C04.vo']
+COQ_TARGETS = ['props/C04.vo', 'model/YSessionSx.vo']
 TRUSTED = sc.TRUSTED
 ASSUMPTIONS = sc.ASSUMPTIONS + ['CPU time is measured on the implementation (budget 2 s per dataReceived call); '
                                 'the theorem bounds loop iterations']
